@@ -636,29 +636,15 @@ class LokyBackend(AutoBatchingMixin, ParallelBackendBase):
         if idle_worker_timeout is None:
             idle_worker_timeout = self.backend_kwargs.get("idle_worker_timeout", 300)
 
-        self._executor_args = dict(
+        self._workers = get_memmapping_executor(
+            n_jobs,
             timeout=idle_worker_timeout,
             env=self._prepare_worker_env(n_jobs=n_jobs),
             context_id=parallel._id,
             **memmapping_executor_kwargs,
         )
-        self._n_workers = n_jobs
-        self._workers = get_memmapping_executor(n_jobs, **self._executor_args)
         self.parallel = parallel
         return n_jobs
-
-    def start_call(self):
-        # The reusable executor is shared by all the Parallel objects of the
-        # process: since this backend was configured (e.g. when entering the
-        # `with` block of its Parallel object) a call of another one may have
-        # resized or replaced it.
-        executor = self._workers
-        if executor is not None and (
-            executor._max_workers != self._n_workers or executor._flags.shutdown
-        ):
-            self._workers = get_memmapping_executor(
-                self._n_workers, **self._executor_args
-            )
 
     def effective_n_jobs(self, n_jobs):
         """Determine the number of jobs which are going to run in parallel"""
